@@ -147,6 +147,44 @@ fn cmd_expand(rest: &str) -> String {
     }
 }
 
+/// `expandg <Derive> <hex item>`: like `expand`, but every field type is wrapped in a `Type::Group` (an invisible
+/// `Delimiter::None` group), which is how a type arrives when the item is produced by `macro_rules!` with a `$t:ty`
+/// fragment.
+fn cmd_expand_grouped(rest: &str) -> String {
+    let mut it = rest.splitn(2, ' ');
+    let (Some(name), Some(hex)) = (it.next(), it.next()) else {
+        return "bad-op".into();
+    };
+    let Some(src) = hex_decode(hex.trim()) else {
+        return "bad-op".into();
+    };
+    let mut ast = match syn::parse_str::<syn::DeriveInput>(&src) {
+        Ok(a) => a,
+        Err(e) => return format!("synerr {}", one_line(&e.to_string())),
+    };
+    fn wrap(fields: &mut syn::Fields) {
+        for f in fields.iter_mut() {
+            let elem = Box::new(f.ty.clone());
+            f.ty = syn::Type::Group(syn::TypeGroup { group_token: Default::default(), elem });
+        }
+    }
+    match &mut ast.data {
+        syn::Data::Struct(s) => wrap(&mut s.fields),
+        syn::Data::Enum(e) => e.variants.iter_mut().for_each(|v| wrap(&mut v.fields)),
+        syn::Data::Union(u) => {
+            for f in u.fields.named.iter_mut() {
+                let elem = Box::new(f.ty.clone());
+                f.ty = syn::Type::Group(syn::TypeGroup { group_token: Default::default(), elem });
+            }
+        }
+    }
+    match crate::dispatch::dispatch(name, &ast) {
+        None => "bad-derive".into(),
+        Some(Ok(ts)) => format!("ok {}", one_line(&ts.to_string())),
+        Some(Err(e)) => format!("err {}", one_line(&e.to_string())),
+    }
+}
+
 #[cfg(feature = "jeltef_derive_more_verif")]
 fn cmd_meta(rest: &str) -> String {
     // meta <attr name> <comma separated allowed params | -> <hex attributes source>  ->  ok <7 flags> | err <msg>
@@ -306,6 +344,7 @@ fn handle(line: &str) -> String {
     match cmd {
         "fmt" => cmd_fmt(rest.trim()),
         "expand" => cmd_expand(rest),
+        "expandg" => cmd_expand_grouped(rest),
         #[cfg(feature = "jeltef_derive_more_verif")]
         "attr" => cmd_attr(rest),
         #[cfg(feature = "jeltef_derive_more_verif")]
